@@ -2,12 +2,18 @@ import NessaiVerif.Model.Encode
 import NessaiVerif.Gen.Encode
 import NessaiVerif.Proofs.Encode
 import NessaiVerif.Proofs.EncodeH5
+import NessaiVerif.Proofs.EncodeLeaf
 /-
 C19 — saved results read back equal to the in-memory results.
 Property theorems only.  `jsonChain`, `jsonFallback`, `h5Sentinel`, `extTable` are GENERATED from
 nessai/utils/io.py and nessai/flowsampler.py on every run (Gen/Encode.lean), so every theorem below is
 re-proved against the dispatch the source has now.  The json text layer, `ndarray.tolist`, `str(obj)` and the
-h5py container are external: they are modelled (Model/Encode.lean, Model/EncodeLeaf.lean) and assumed.
+h5py container / numpy coercion are external: they are modelled (Model/Encode.lean, Model/EncodeLeaf.lean) and
+assumed; the correspondence validates them on every run.
+NOT covered by a theorem (oracle + model==code correspondence only): the result-level clauses of the property —
+which fields a real result dictionary of either sampler holds (log_evidence, log_evidence_error, nested_samples /
+samples, posterior_samples, log_posterior_weights, insertion_indices, history) and that they equal the in-memory
+results, and the conversion of `posterior_samples` to a dict of columns in the JSON branch of `save_results`.
 -/
 namespace NessaiVerif.C19
 open NessaiVerif.Encode NessaiVerif.Gen.Encode
@@ -17,42 +23,81 @@ numpy floats → `float`, arrays → `tolist()`, every other non-native object (
 theorem dispatch_spec : DispatchSpec jsonChain jsonFallback :=
   ⟨by decide, by decide, by decide, by decide, by decide⟩
 
-/-- **JSON round trip.**  For every value tree whose dictionary keys the json module accepts, writing with
-`save_to_json` never raises and `json.load` returns the documented canonical form, which consists of native
-JSON values only: arrays → nested lists, numpy scalars → numbers (bit pattern kept, so NaN/±inf survive),
-tuples → lists, other objects → their `str`. -/
-theorem json_roundtrip (t : Tree) (h : KeysOk t) :
-    jsonEncode jsonChain jsonFallback t = .ok (canon t) ∧ IsJson (canon t) :=
-  ⟨jsonEncode_eq_canon dispatch_spec t h, canon_isJson t h⟩
+/-- The encoder driven by the GENERATED dispatch produces the documented canonical form `canon` (a per-constructor
+description: ndarray ↦ nested lists of its elements in row-major order, numpy int/float scalar ↦ the number,
+tuple ↦ list, any other object ↦ `str(obj)`), for every tree whose keys the json module accepts and whose arrays
+are well-shaped, and never raises.  The content of this theorem is the dispatch facts (`dispatch_spec`) carried
+through the recursion; what `canon` means is pinned independently by `json_plain_identity`,
+`json_scalars_numbers`, `json_array_values_preserved`, `json_array_1d` below. -/
+theorem json_dispatch_matches_canon (t : Tree) (hk : KeysOk t) (hw : WellShaped t) :
+    jsonEncode jsonChain jsonFallback t = .ok (canon t) :=
+  jsonEncode_eq_canon dispatch_spec t hk hw
 
-example : KeysOk (.dict [(.str "history", .dict [(.str "logZ", .list [.npFloat .f64 0x7ff8000000000000 none, .none])]),
-    (.int 3, .ndarray .float [1, 2] [.float 0, .float 0x7ff0000000000000]), (.str "cls", .opaque "<class 'A'>")]) := by
-  simp [KeysOk, KeysOkKvs, KeysOkList]
+example : jsonEncode jsonChain jsonFallback (.dict [(.int 3, .ndarray .float [1, 2] [.npFloat .f64 0 none, .none])]) =
+    .ok (.dict [(.str "3", .list [.list [.float 0, .none]])]) :=
+  json_dispatch_matches_canon _ (by simp [KeysOk, KeysOkKvs, KeysOkList]) (by simp [WellShaped, WellShapedKvs, WellShapedList, prod])
 
-/-- The hypothesis of `json_roundtrip` is needed: a key such as `np.int64(1)` or a tuple makes `json.dump`
-raise TypeError (no file content is produced). -/
+/-- **JSON round trip.**  Write with `save_to_json`, read with `json.load` (which builds dictionaries by assignment,
+so a repeated key would collapse).  For every tree (i) whose keys the json module accepts, (ii) whose keys are
+distinct as written to the file in every dictionary, (iii) whose arrays hold as many elements as their shape says:
+the write never raises and the value read is the canonical form, which consists of native JSON values only.
+Assumed of the json text layer and validated by the correspondence, not proved: `dumps`/`loads` of native values is
+the identity, incl. `NaN`/`Infinity` literals, float repr round trip and member order. -/
+theorem json_roundtrip (t : Tree) (hk : KeysOk t) (hd : KeysDistinct t) (hw : WellShaped t) :
+    jsonRoundTrip jsonChain jsonFallback t = .ok (canon t) ∧ IsJson (canon t) :=
+  ⟨jsonRoundTrip_eq_canon dispatch_spec t hk hd hw, canon_isJson t hk⟩
+
+example : jsonRoundTrip jsonChain jsonFallback
+    (.dict [(.str "history", .dict [(.str "logZ", .list [.npFloat .f64 0x7ff8000000000000 none, .none])]),
+            (.int 3, .ndarray .float [1, 2] [.float 0, .float 0x7ff0000000000000]), (.str "cls", .opaque "<class 'A'>")]) =
+    .ok (.dict [(.str "history", .dict [(.str "logZ", .list [.float 0x7ff8000000000000, .none])]),
+            (.str "3", .list [.list [.float 0, .float 0x7ff0000000000000]]), (.str "cls", .str "<class 'A'>")]) :=
+  (json_roundtrip _ (by simp [KeysOk, KeysOkKvs, KeysOkList])
+    (by simp [KeysDistinct, KeysDistinctKvs, KeysDistinctList, keysOf, renderKey, jsonKey]; decide)
+    (by simp [WellShaped, WellShapedKvs, WellShapedList, prod])).1
+
+/-- Hypothesis (i) is needed: a key such as `np.int64(1)` or a tuple makes `json.dump` raise TypeError
+(no file content is produced). -/
 theorem json_bad_key_fails_without :
     jsonEncode jsonChain jsonFallback (.dict [(.bad, .int 1)]) = .error .type := by rfl
 
+/-- Hypothesis (ii) is needed: `{1: 0, "1": 5}` is written with two members "1" and `json.load` returns one. -/
+theorem json_duplicate_keys_fails_without :
+    jsonRoundTrip jsonChain jsonFallback (.dict [(.int 1, .int 0), (.str "1", .int 5)]) =
+      .ok (.dict [(.str "1", .int 5)]) := by rfl
+
+/-- Hypothesis (iii) is a representation invariant: a tree whose array has the wrong number of elements denotes no
+numpy array and is rejected by the model instead of being "round-tripped". -/
+theorem json_wellshaped_fails_without :
+    jsonRoundTrip jsonChain jsonFallback (.ndarray .float [2, 2] [.float 0]) = .error .malformed := by rfl
+
 /-- A dictionary that already consists of native JSON values (None, bool, int, float incl. NaN/±inf, str,
-lists, string-keyed dicts) reads back identical — value by value, in order. -/
-theorem json_plain_identity (t : Tree) (h : IsJson t) : jsonEncode jsonChain jsonFallback t = .ok t := by
-  have := jsonEncode_eq_canon dispatch_spec t (keysOk_of_isJson t h)
+lists, string-keyed dicts with distinct keys) reads back identical — value by value, in order. -/
+theorem json_plain_identity (t : Tree) (h : IsJson t) (hd : KeysDistinct t) :
+    jsonRoundTrip jsonChain jsonFallback t = .ok t := by
+  have := jsonRoundTrip_eq_canon dispatch_spec t (keysOk_of_isJson t h) hd (wellShaped_of_isJson t h)
   rwa [canon_of_isJson t h] at this
 
-example : IsJson (.dict [(.str "a", .list [.float 0x7ff8000000000000, .none, .int (-3)]), (.str "b", .dict [])]) := by
-  simp [IsJson, IsJsonKvs, IsJsonList]
+example : jsonRoundTrip jsonChain jsonFallback
+    (.dict [(.str "a", .list [.float 0x7ff8000000000000, .none, .int (-3)]), (.str "b", .dict [])]) =
+    .ok (.dict [(.str "a", .list [.float 0x7ff8000000000000, .none, .int (-3)]), (.str "b", .dict [])]) :=
+  json_plain_identity _ (by simp [IsJson, IsJsonKvs, IsJsonList])
+    (by simp [KeysDistinct, KeysDistinctKvs, KeysDistinctList, keysOf, renderKey, jsonKey])
 
 /-- Saving what was read back gives the same file again (the canonical form is a fixed point). -/
 theorem json_canon_idempotent (t : Tree) (h : KeysOk t) : canon (canon t) = canon t :=
   canon_of_isJson _ (canon_isJson t h)
+
+example : canon (canon (.tuple [.npInt 2, .npBool true])) = canon (.tuple [.npInt 2, .npBool true]) :=
+  json_canon_idempotent _ (by simp [KeysOk, KeysOkList])
 
 /-- numpy integer and floating scalars read back as the Python number with the same value: the integer itself,
 and the binary64 pattern of `float(x)` (any pattern: NaN, +inf, −inf, −0.0 included). -/
 theorem json_scalars_numbers (i : Int) (k : FKind) (bits : Nat) (e : Option String) :
     jsonEncode jsonChain jsonFallback (.npInt i) = .ok (.int i) ∧
     jsonEncode jsonChain jsonFallback (.npFloat k bits e) = .ok (.float bits) :=
-  ⟨jsonEncode_eq_canon dispatch_spec _ (by simp [KeysOk]), jsonEncode_eq_canon dispatch_spec _ (by simp [KeysOk])⟩
+  ⟨jsonEncode_eq_canon dispatch_spec _ (by simp [KeysOk]) (by simp [WellShaped]),
+   jsonEncode_eq_canon dispatch_spec _ (by simp [KeysOk]) (by simp [WellShaped])⟩
 
 /-- An array of any shape reads back as nested lists whose leaves are exactly the array's elements in C order:
 nothing lost, duplicated or reordered (for elements that are native scalars, as `tolist` produces them). -/
@@ -62,13 +107,31 @@ theorem json_array_values_preserved (dt : DT) (shape : List Nat) (flat : List Tr
   have hj : IsJsonList flat := (isJsonList_iff flat).2 (fun x hx => (hflat x hx).1)
   have hk : KeysOk (.ndarray dt shape flat) := by
     simpa [KeysOk] using keysOkList_of_isJson flat hj
-  refine ⟨_, jsonEncode_eq_canon dispatch_spec _ hk, ?_⟩
+  have hw : WellShaped (.ndarray dt shape flat) := by
+    simpa [WellShaped, hlen] using wellShapedList_of_isJson flat hj
+  refine ⟨_, jsonEncode_eq_canon dispatch_spec _ hk hw, ?_⟩
   simp only [canon, canonList_of_isJson flat hj]
   exact leaves_nest shape flat (fun x hx => (hflat x hx).2) hlen
 
-example : (∀ x ∈ [Tree.float 1, .float 2, .float 3, .float 4, .float 5, .float 6], IsJson x ∧ IsLeaf x) ∧
-    [Tree.float 1, .float 2, .float 3, .float 4, .float 5, .float 6].length = prod [3, 2] := by
-  simp [IsJson, IsLeaf, prod]
+example : ∃ j, jsonEncode jsonChain jsonFallback
+    (.ndarray .float [3, 2] [.float 1, .float 2, .float 3, .float 4, .float 5, .float 6]) = .ok j ∧
+    leaves j = [.float 1, .float 2, .float 3, .float 4, .float 5, .float 6] :=
+  json_array_values_preserved _ _ _ (by simp [IsJson, IsLeaf]) (by simp [prod])
+
+/-- A one-dimensional array of native scalars reads back as exactly the flat list of its elements. -/
+theorem json_array_1d (dt : DT) (flat : List Tree) (hflat : ∀ x ∈ flat, IsJson x) :
+    jsonEncode jsonChain jsonFallback (.ndarray dt [flat.length] flat) = .ok (.list flat) := by
+  have hj : IsJsonList flat := (isJsonList_iff flat).2 hflat
+  have hk : KeysOk (.ndarray dt [flat.length] flat) := by
+    simpa [KeysOk] using keysOkList_of_isJson flat hj
+  have hw : WellShaped (.ndarray dt [flat.length] flat) := by
+    simpa [WellShaped, prod] using wellShapedList_of_isJson flat hj
+  rw [jsonEncode_eq_canon dispatch_spec _ hk hw]
+  simp only [canon, canonList_of_isJson flat hj, nest_1d]
+
+example : jsonEncode jsonChain jsonFallback (.ndarray .float [3] [.float 1, .float 0x7ff8000000000000, .float 3]) =
+    .ok (.list [.float 1, .float 0x7ff8000000000000, .float 3]) :=
+  json_array_1d .float [.float 1, .float 0x7ff8000000000000, .float 3] (by simp [IsJson])
 
 /-- **Partial** (a finding, stated as a theorem): structured arrays other than `posterior_samples` are written
 as bare rows, so two arrays that differ only in their field names produce the same JSON file — the names of
@@ -79,87 +142,134 @@ theorem json_structured_forgets_names_partial (n1 n2 : List String) (nrows : Nat
     jsonEncode jsonChain jsonFallback (.structured n2 nrows cells) := by
   simp [jsonEncode, h]
 
-example : ["x", "logL"].length = ["y", "logP"].length := rfl
+example : jsonEncode jsonChain jsonFallback (.structured ["x", "logL"] 1 [.float 1, .float 2]) =
+    jsonEncode jsonChain jsonFallback (.structured ["y", "logP"] 1 [.float 1, .float 2]) :=
+  json_structured_forgets_names_partial _ _ _ _ rfl
 
 /-- **Partial** (a finding): a `np.bool_` is neither `np.integer` nor `np.floating`, so it falls through to
 `str(obj)` and reads back as the string "True"/"False", not as a boolean. -/
 theorem json_npbool_becomes_string_partial (b : Bool) :
     jsonEncode jsonChain jsonFallback (.npBool b) = .ok (.str (pyBoolStr b)) :=
-  jsonEncode_eq_canon dispatch_spec _ (by simp [KeysOk])
+  jsonEncode_eq_canon dispatch_spec _ (by simp [KeysOk]) (by simp [WellShaped])
 
-/-- **Configuration file.**  For every dictionary of keyword arguments with string keys — values may be
-classes, pools, callbacks (opaque), numpy values, nested containers — `save_kwargs` writes a file that the
-standard JSON reader reads, and it holds the three keys `save_kwargs` adds. -/
+/-- **Configuration file.**  Keyword arguments reach `save_kwargs` as a dict with distinct string keys.  Whatever
+the values are — classes, pools, callbacks (opaque), numpy values, nested containers with json-acceptable,
+distinct keys — `save_kwargs` writes a file that the standard JSON reader reads: the write never raises and what
+`json.load` returns is native JSON. -/
 theorem save_kwargs_readable (kwargs : List (Key × Tree)) (eps dtype ins : Tree)
-    (hk : KeysOkKvs kwargs) (he : KeysOk eps) (hd : KeysOk dtype) (hi : KeysOk ins) :
-    ∃ j, saveKwargs jsonChain jsonFallback (kwargsExtraKeys.zip [eps, dtype, ins]) kwargs = .ok j ∧ IsJson j := by
-  have hx : ∀ e ∈ kwargsExtraKeys.zip [eps, dtype, ins], KeysOk e.2 := by
-    intro e hmem
-    have : e.2 ∈ [eps, dtype, ins] := (List.of_mem_zip hmem).2
-    simp only [List.mem_cons, List.mem_nil_iff, or_false] at this
-    rcases this with h | h | h <;> simp [h, he, hd, hi]
-  have hok : KeysOk (.dict ((kwargsExtraKeys.zip [eps, dtype, ins]).foldl
-      (fun d e => upsert (.str e.1) e.2 d) kwargs)) := by
-    simpa [KeysOk] using keysOkKvs_extras _ kwargs hx hk
-  exact ⟨_, jsonEncode_eq_canon dispatch_spec _ hok, canon_isJson _ hok⟩
+    (hs : StrKeys kwargs) (hn : (keysOf kwargs).Nodup)
+    (hk : KeysOkKvs kwargs) (hd : KeysDistinctKvs kwargs) (hw : WellShapedKvs kwargs)
+    (hx : ∀ v ∈ [eps, dtype, ins], KeysOk v ∧ KeysDistinct v ∧ WellShaped v) :
+    ∃ j, jsonRoundTrip jsonChain jsonFallback (kwargsDict (kwargsExtraKeys.zip [eps, dtype, ins]) kwargs) = .ok j ∧
+      IsJson j := by
+  have hx' : ∀ e ∈ kwargsExtraKeys.zip [eps, dtype, ins], KeysOk e.2 ∧ KeysDistinct e.2 ∧ WellShaped e.2 :=
+    fun e hmem => hx e.2 (List.of_mem_zip hmem).2
+  obtain ⟨h1, h2⟩ := strKeys_nodup_extras (kwargsExtraKeys.zip [eps, dtype, ins]) kwargs hs hn
+  obtain ⟨h3, h4⟩ := extras_invariants (kwargsExtraKeys.zip [eps, dtype, ins]) kwargs
+    (fun e he => ⟨(hx' e he).2.1, (hx' e he).2.2⟩) hd hw
+  have hok : KeysOk (kwargsDict (kwargsExtraKeys.zip [eps, dtype, ins]) kwargs) := by
+    simpa [kwargsDict, KeysOk] using keysOkKvs_extras _ kwargs (fun e he => (hx' e he).1) hk
+  have hdist : KeysDistinct (kwargsDict (kwargsExtraKeys.zip [eps, dtype, ins]) kwargs) := by
+    simp only [kwargsDict, KeysDistinct]
+    exact ⟨renderKey_nodup_of_str _ h1 h2, h3⟩
+  have hws : WellShaped (kwargsDict (kwargsExtraKeys.zip [eps, dtype, ins]) kwargs) := by
+    simpa [kwargsDict, WellShaped] using h4
+  exact ⟨_, jsonRoundTrip_eq_canon dispatch_spec _ hok hdist hws, canon_isJson _ hok⟩
 
-example : KeysOkKvs [(.str "pool", .opaque "<multiprocessing.pool.Pool state=RUN pool_size=2>"),
-    (.str "flow_config", .dict [(.str "model_config", .dict [(.str "ftype", .opaque "<class 'F'>")])]),
-    (.str "nlive", .npInt 100)] := by
-  simp [KeysOkKvs, KeysOk]
+example : ∃ j, jsonRoundTrip jsonChain jsonFallback (kwargsDict (kwargsExtraKeys.zip [.none, .opaque "torch.float32", .bool false])
+    [(.str "pool", .opaque "<multiprocessing.pool.Pool state=RUN pool_size=2>"),
+     (.str "flow_config", .dict [(.str "model_config", .dict [(.str "ftype", .opaque "<class 'F'>")])]),
+     (.str "nlive", .npInt 100)]) = .ok j ∧ IsJson j :=
+  save_kwargs_readable _ _ _ _
+    (by intro k hk; simp [keysOf] at hk; rcases hk with h | h | h <;> exact ⟨_, h⟩)
+    (by simp [keysOf])
+    (by simp [KeysOkKvs, KeysOk])
+    (by simp [KeysDistinctKvs, KeysDistinct, keysOf, renderKey, jsonKey])
+    (by simp [WellShapedKvs, WellShaped])
+    (by simp [KeysOk, KeysDistinct, WellShaped])
 
-/-- **HDF5 round trip.**  For every nested dictionary whose keys are distinct strings that are single path
-segments (non-empty, no '/', not "."), with no empty sub-dictionary and no genuine string equal to the
-sentinel, `save_dict_to_hdf5` followed by reading groups as dictionaries and datasets as values (sentinel →
-None) gives back the same dictionary: same keys at every level, same value at every leaf, None preserved.
-(Leaf values are as h5py stores them; the container is modelled, see the header.) -/
-theorem hdf5_roundtrip (kvs : List (Key × Tree)) (h : H5SafeKvs h5Sentinel kvs) :
-    h5RoundTrip h5Sentinel kvs = .ok (.dict kvs) :=
-  h5RoundTrip_safe h5Sentinel kvs h
+/-- **HDF5 round trip** — about `h5WriteFull`, the writer the real code is tied to (values converted by
+numpy/h5py, then names linked, in write order).  For every nested dictionary (i) whose keys are distinct strings
+that are single path segments (non-empty, no '/', not "."), with no empty sub-dictionary and no genuine string
+equal to the sentinel, and (ii) whose every leaf is writable by numpy/h5py (`LeavesOk`: the assumed table
+`h5LeafToks` accepts its stored form — no arbitrary object, no None or ragged rows inside a list, …):
+the write succeeds, it produces the same container as the container-level writer `h5Write`, reading groups as
+dictionaries and datasets as stored values (sentinel → None) gives back the same dictionary — same keys at every
+level, same stored value at every leaf, None preserved — and every dataset has a canonical read-back form.
+"Same value at a leaf" is up to what h5py stores for it (list → array, int → int64, …): that canonicalisation is
+the assumed table, validated by the correspondence, not proved. -/
+theorem hdf5_roundtrip (kvs : List (Key × Tree)) (h : H5SafeKvs h5Sentinel kvs) (hl : LeavesOkKvs h5Sentinel kvs) :
+    h5RoundTripFull h5Sentinel kvs = .ok (.dict kvs) ∧
+    ∃ f toks, h5WriteFull h5Sentinel kvs = .ok f ∧ h5Write h5Sentinel kvs = .ok f ∧
+      h5ReadToksKids h5Sentinel f = .ok toks :=
+  h5RoundTripFull_safe h5Sentinel kvs h hl
 
-example : H5SafeKvs h5Sentinel [(.str "log_evidence", .npFloat .f64 0 none), (.str "bootstrap_log_evidence", .none),
-    (.str "history", .dict [(.str "logZ", .list [.float 1]), (.str "stopping_criteria", .dict [(.str "ratio", .list [])])])] := by
-  simp [H5SafeKvs, H5Safe, keysOf]
-  decide
+example : h5RoundTripFull h5Sentinel [(.str "log_evidence", .npFloat .f64 0 none), (.str "bootstrap_log_evidence", .none),
+    (.str "history", .dict [(.str "logZ", .list [.float 0]), (.str "stopping_criteria", .dict [(.str "ratio", .list [])])])] =
+    .ok (.dict [(.str "log_evidence", .npFloat .f64 0 none), (.str "bootstrap_log_evidence", .none),
+    (.str "history", .dict [(.str "logZ", .list [.float 0]), (.str "stopping_criteria", .dict [(.str "ratio", .list [])])])]) :=
+  (hdf5_roundtrip _ (by simp [H5SafeKvs, H5Safe, keysOf]; decide)
+    (by simp [LeavesOkKvs, LeavesOk]; decide)).1
 
 /-- The syntactic condition that makes a key a single path segment. -/
 theorem key_single_segment (k : String) (h1 : '/' ∉ k.toList) (h2 : k ≠ "") (h3 : k ≠ ".") : segs k = [k] :=
   segs_single k h1 h2 h3
 
-example : '/' ∉ "log_evidence".toList ∧ "log_evidence" ≠ "" ∧ "log_evidence" ≠ "." := by decide
+example : segs "log_evidence" = ["log_evidence"] :=
+  key_single_segment "log_evidence" (by decide) (by decide) (by decide)
 
 /-- `None` entries survive at any depth: written as the sentinel string, read back as `None`. -/
 theorem none_roundtrip (k1 k2 : String) (h1 : segs k1 = [k1]) (h2 : segs k2 = [k2]) (hk : k1 ≠ k2) :
-    h5RoundTrip h5Sentinel [(.str k1, .none), (.str k2, .dict [(.str k1, .none)])] =
+    h5RoundTripFull h5Sentinel [(.str k1, .none), (.str k2, .dict [(.str k1, .none)])] =
       .ok (.dict [(.str k1, .none), (.str k2, .dict [(.str k1, .none)])]) := by
-  apply hdf5_roundtrip
-  simp [H5SafeKvs, H5Safe, keysOf, h1, h2, hk]
+  refine (hdf5_roundtrip _ ?_ ?_).1
+  · simp [H5SafeKvs, H5Safe, keysOf, h1, h2, hk]
+  · simp [LeavesOkKvs, LeavesOk]; decide
 
-example : segs "bootstrap_log_evidence" = ["bootstrap_log_evidence"] ∧ segs "b" = ["b"] ∧ "bootstrap_log_evidence" ≠ "b" := by decide
+example : h5RoundTripFull h5Sentinel [(.str "bootstrap_log_evidence", .none), (.str "b", .dict [(.str "bootstrap_log_evidence", .none)])] =
+    .ok (.dict [(.str "bootstrap_log_evidence", .none), (.str "b", .dict [(.str "bootstrap_log_evidence", .none)])]) :=
+  none_roundtrip _ _ (by decide) (by decide) (by decide)
 
 /-- `hdf5_roundtrip` needs "no genuine string equals the sentinel": the string "__none__" reads back as None. -/
 theorem sentinel_string_fails_without :
-    h5RoundTrip h5Sentinel [(.str "a", .str h5Sentinel)] = .ok (.dict [(.str "a", .none)]) := by rfl
+    h5RoundTripFull h5Sentinel [(.str "a", .str h5Sentinel)] = .ok (.dict [(.str "a", .none)]) := by rfl
 
 /-- `hdf5_roundtrip` needs "no empty sub-dictionary": an empty dict writes nothing, its key is lost. -/
 theorem empty_dict_fails_without :
-    h5RoundTrip h5Sentinel [(.str "a", .dict []), (.str "b", .int 1)] = .ok (.dict [(.str "b", .int 1)]) := by rfl
+    h5RoundTripFull h5Sentinel [(.str "a", .dict []), (.str "b", .int 1)] = .ok (.dict [(.str "b", .int 1)]) := by rfl
 
 /-- `hdf5_roundtrip` needs slash-free keys: a key "a/b" comes back as a nested dictionary … -/
 theorem slash_key_fails_without :
-    h5RoundTrip h5Sentinel [(.str "a/b", .int 1)] = .ok (.dict [(.str "a", .dict [(.str "b", .int 1)])]) := by rfl
+    h5RoundTripFull h5Sentinel [(.str "a/b", .int 1)] = .ok (.dict [(.str "a", .dict [(.str "b", .int 1)])]) := by rfl
 
 /-- … two different dictionaries produce the same file, and together with the nested spelling the write fails
 (`OSError: name already exists`). -/
 theorem slash_key_collides :
-    h5RoundTrip h5Sentinel [(.str "a/b", .int 1)] = h5RoundTrip h5Sentinel [(.str "a", .dict [(.str "b", .int 1)])] ∧
-    h5RoundTrip h5Sentinel [(.str "a/b", .int 1), (.str "a", .dict [(.str "b", .int 2)])] = .error .os := by
+    h5RoundTripFull h5Sentinel [(.str "a/b", .int 1)] = h5RoundTripFull h5Sentinel [(.str "a", .dict [(.str "b", .int 1)])] ∧
+    h5RoundTripFull h5Sentinel [(.str "a/b", .int 1), (.str "a", .dict [(.str "b", .int 2)])] = .error .os := by
   constructor <;> rfl
 
 /-- a key that is not a str makes the HDF5 writer raise TypeError (`path + key`) -/
 theorem hdf5_nonstr_key_fails_without (i : Int) (v : Tree) (rest : List (Key × Tree)) :
-    h5RoundTrip h5Sentinel ((.int i, v) :: rest) = .error .type := by
-  simp [h5RoundTrip, h5Write, flattenKvs]
+    h5RoundTripFull h5Sentinel ((.int i, v) :: rest) = .error .type := by
+  simp [h5RoundTripFull, h5WriteFull, flattenP, writeSeq]
+
+example : h5RoundTripFull h5Sentinel [(.int 1, .float 0)] = .error .type := hdf5_nonstr_key_fails_without 1 _ _
+
+/-- `hdf5_roundtrip` needs writable leaves (known finding): `None` is encoded only as a direct dictionary value,
+a list holding a None entry makes the writer raise TypeError — although the container-level writer would accept it. -/
+theorem none_in_list_fails_without :
+    h5RoundTripFull h5Sentinel [(.str "a", .list [.float 0, .none])] = .error .type ∧
+    ∃ f, h5Write h5Sentinel [(.str "a", .list [.float 0, .none])] = .ok f :=
+  ⟨by rfl, _, by rfl⟩
+
+/-- `hdf5_roundtrip` needs writable leaves (known finding): rows of unequal length make the writer raise ValueError. -/
+theorem ragged_list_fails_without :
+    h5RoundTripFull h5Sentinel [(.str "a", .list [.list [.int 1, .int 2], .list [.int 3]])] = .error .value := by rfl
+
+/-- `hdf5_roundtrip` needs writable leaves: an arbitrary object (class, pool, callback) makes the writer raise TypeError. -/
+theorem opaque_leaf_fails_without :
+    h5RoundTripFull h5Sentinel [(.str "a", .opaque "<class 'A'>")] = .error .type := by rfl
 
 /-- **Extension handling.**  All three spellings select the documented writer, whether given through
 `extension=` (appended to a bare file name) or taken from the file name. -/
@@ -179,6 +289,7 @@ theorem unknown_extension_rejected (e fe : String) (h : e ∉ ["json", "hdf5", "
   simp only [List.mem_cons, List.mem_nil_iff, or_false, not_or] at h
   simp [saveTarget, resolveExt, extTable, formatOf, h.1, h.2.1, h.2.2]
 
-example : "txt" ∉ ["json", "hdf5", "h5"] := by decide
+example : saveTarget extTable "" (some "txt") = .error .runtime :=
+  unknown_extension_rejected "txt" "" (by decide)
 
 end NessaiVerif.C19
